@@ -68,6 +68,14 @@ fn scenarios() -> Vec<Scenario> {
                 REvent::AddAdmin { key: 2, enabled: false },
             ],
         },
+        // the attacker C is a FORMER user administrator of the group (enabled, then disabled): what it signs into the
+        // user list before or after its tenure is not entitled
+        Scenario {
+            name: "S5-former-user-admin-C",
+            template: vec![(vec![("ns.P", true, false)], vec![1], vec![])],
+            old: vec![REvent::AddUserAdmin { group: 0, key: 2, enabled: true }],
+            new: vec![REvent::AddUser { group: 0, key: 3, enabled: true }, REvent::AddUserAdmin { group: 0, key: 2, enabled: false }],
+        },
     ]
 }
 
